@@ -38,7 +38,11 @@ def floatify(v):
 
 class Engine(EngineBase):
     def budget(self, tier):
-        return (850, 55.0) if tier == "quick" else (9000, 900.0)
+        return (850, 55.0) if tier == "quick" else (2000, 900.0)
+
+    def run_timeout(self, tier):
+        # thorough enumerates every single damage of a scenario (thousands of damaged workspaces per run)
+        return 60.0 if tier == "quick" else 900.0
 
     def rule(self):
         return ("seeded scenario (1-5 jobs of assorted state point shapes, cache absent/complete/partial) x "
